@@ -17,7 +17,7 @@ type c05 struct{}
 
 func init() {
 	register(c05{})
-	expectedProbes["C05"] = []string{"root-by-location-refused", "target-inside-extension", "target-in-root", "target-in-other-document", "target-at-http-url", "nested-pointer", "odd-name", "dangling-pointer", "dangling-document", "ill-typed-target",
+	expectedProbes["C05"] = []string{"root-by-location-refused", "target-inside-extension", "target-in-root", "target-in-other-document", "target-at-http-url", "nested-pointer", "odd-name", "dangling-pointer", "dangling-near-miss", "dangling-document", "ill-typed-target",
 		"refused-document", "kind:schema", "kind:parameter", "kind:response", "kind:pathItem", "kind:items", "three-roots-agree", "nested-ref-not-followed", "continue-on-error-set", "package-level-loader", "operation-response-target"}
 }
 
@@ -190,6 +190,32 @@ func (c05) Gen(r *sim.RNG, tier string, idx int) *Scenario {
 				// an optional member that is (most probably) absent
 				ref += []string{"/not", "/items", "/additionalProperties", "/additionalItems"}[r.Intn(4)]
 			}
+		case 7, 8:
+			// a near miss: one token of the pointer (case 7: the last one) names almost - not quite - a
+			// member that exists: a trailing escaped slash or space, or the last character missing. What
+			// it designates (nothing, most probably) is for the model to say.
+			if j := strings.Index(ref, "#/"); j >= 0 {
+				toks := strings.Split(ref[j+2:], "/")
+				k := len(toks) - 1
+				if len(toks) > 1 && r.Bool(0.5) {
+					k = 1 + r.Intn(len(toks)-1)
+				}
+				switch r.Intn(4) {
+				case 0:
+					toks[k] += "~1"
+				case 1:
+					toks[k] += "%20"
+				case 2:
+					toks[k] += "~1~1"
+				default:
+					if plainToken(toks[k]) && len(toks[k]) > 1 {
+						toks[k] = toks[k][:len(toks[k])-1]
+					} else {
+						toks[k] += "~1"
+					}
+				}
+				ref = ref[:j+2] + strings.Join(toks, "/")
+			}
 		case 6:
 			if t.Kind == "schema" {
 				// a member the designated schema does not have (map, slice and pointer members of the typed form)
@@ -293,6 +319,15 @@ func injectExtensionTargets(w *model.World, r *sim.RNG) []refCase {
 	return out
 }
 
+func plainToken(t string) bool {
+	for _, c := range t {
+		if !(c >= 'a' && c <= 'z' || c >= 'A' && c <= 'Z' || c >= '0' && c <= '9') {
+			return false
+		}
+	}
+	return t != ""
+}
+
 func c05Kind(entry string) model.Kind {
 	switch {
 	case strings.Contains(entry, "Parameter"):
@@ -345,6 +380,9 @@ func (c05) Run(sc *Scenario) *Verdict {
 			switch class {
 			case "dangling-ptr":
 				v.probe("dangling-pointer")
+				if strings.Contains(op.Ref, "~1/") || strings.HasSuffix(op.Ref, "~1") || strings.Contains(op.Ref, "%20/") || strings.HasSuffix(op.Ref, "%20") {
+					v.probe("dangling-near-miss")
+				}
 			case "dangling-doc":
 				v.probe("dangling-document")
 				if _, existed := w.Docs[docURL]; existed {
